@@ -138,7 +138,8 @@ fn run(ctx: &Ctx, rep: &mut Report) {
 		let mut x = lo + if stride > 1 { rng.below(stride) } else { 0 };
 		let mut n = 0u64;
 		while x < hi {
-			enc32(x as u32, false, rep, &mut spec);
+			// every 64th value also through the callback / streaming / size-only entry points
+			enc32(x as u32, n % 64 == 0, rep, &mut spec);
 			n += 1;
 			x += stride;
 		}
@@ -185,10 +186,10 @@ fn run(ctx: &Ctx, rep: &mut Report) {
 					for b in &lane_vals {
 						let x = (a << (8 * i)) | (b << (8 * j));
 						if x <= u64::MAX as u128 {
-							enc64(x as u64, false, rep, &mut spec);
+							enc64(x as u64, true, rep, &mut spec);
 							rep.evaluations += 1;
 						}
-						enc128(x, false, rep, &mut spec);
+						enc128(x, true, rep, &mut spec);
 						rep.evaluations += 1;
 						rep.distinct_enumerated += 1;
 						rep.count("values_two_lanes");
